@@ -268,7 +268,7 @@ Proof.
       rewrite parents_new. rewrite H. reflexivity.
   - destruct (aget t (tags x)); exact C.
   - destruct (locked x); exact C.
-  - destruct (remote c && negb (revser_ok c)); [exact C|]. destruct (memb r (have x)); exact C.
+  - destruct (remote c && hpss c && negb (revser_ok c)); [exact C|]. destruct (memb r (have x)); exact C.
   - destruct (index_of r (lefthand_opt (g x) (tip x))); exact C.
   - destruct (memb r (have x)); exact C.
   - (* GenHist *)
@@ -298,7 +298,7 @@ Proof.
   - unfold next_fresh. destruct (fresh_next (g x)); [discriminate | intros [= _ <-]; left; reflexivity].
   - destruct (aget t (tags x)); [discriminate | intros [= _ <-]; left; reflexivity].
   - destruct (locked x); discriminate.
-  - destruct (remote c && negb (revser_ok c)); [intros [= _ <-]; left; reflexivity|].
+  - destruct (remote c && hpss c && negb (revser_ok c)); [intros [= _ <-]; left; reflexivity|].
     destruct (memb r (have x)); [discriminate | intros [= _ <-]; left; reflexivity].
   - destruct (index_of r (lefthand_opt (g x) (tip x))); [discriminate | intros [= _ <-]; left; reflexivity].
   - destruct (memb r (have x)); [discriminate | intros [= _ <-]; left; reflexivity].
@@ -385,7 +385,7 @@ Qed.
 Lemma step_remote_irrelevant rs x o : quirk rs o = false ->
   step (cfg_vfs rs) x o = step (cfg_local rs) x o.
 Proof.
-  intros Q. unfold step. cbn [remote vfs cfg_vfs cfg_local negb andb]. rewrite !andb_false_r.
+  intros Q. unfold step. cbn [remote vfs hpss cfg_vfs cfg_local negb andb]. rewrite !andb_false_r.
   destruct o; try reflexivity; try discriminate.
   - cbn [quirk] in Q. cbn [mutating andb]. unfold parent_map. cbn [remote cfg_vfs cfg_local andb].
     destruct (has_null keys); cbn [andb] in *; [rewrite Q|]; reflexivity.
@@ -397,6 +397,27 @@ Theorem modes_agree_guarded rs : forall ops x, quirk_free rs ops = true ->
 Proof.
   induction ops as [|o rest IH]; intros x H; [reflexivity|]. cbn in H. apply andb_true_iff in H as [Ho Hr].
   apply negb_true_iff in Ho. cbn [run]. rewrite (step_remote_irrelevant rs x o Ho). cbn zeta.
+  f_equal. apply IH. exact Hr.
+Qed.
+
+(* a server without the modern verbs: the client's VFS fallbacks give the same machine, except that
+   the Repository.iter_revisions discrepancy disappears with the verb *)
+Definition old_quirk (rs : bool) (o : op) : bool :=
+  match o with GetRev _ => negb rs | _ => false end.
+Definition old_quirk_free (rs : bool) (ops : list op) : bool := forallb (fun o => negb (old_quirk rs o)) ops.
+
+Lemma step_old_irrelevant rs x o : old_quirk rs o = false ->
+  step (cfg_old rs) x o = step (cfg_vfs rs) x o.
+Proof.
+  intros Q. unfold step. destruct o; try reflexivity.
+  cbn [old_quirk] in Q. apply negb_false_iff in Q. subst rs. reflexivity.
+Qed.
+
+Theorem oldsrv_agrees_guarded rs : forall ops x, old_quirk_free rs ops = true ->
+  run (cfg_old rs) x ops = run (cfg_vfs rs) x ops.
+Proof.
+  induction ops as [|o rest IH]; intros x H; [reflexivity|]. cbn in H. apply andb_true_iff in H as [Ho Hr].
+  apply negb_true_iff in Ho. cbn [run]. rewrite (step_old_irrelevant rs x o Ho). cbn zeta.
   f_equal. apply IH. exact Hr.
 Qed.
 
